@@ -63,7 +63,7 @@ class Builder(object):
     model's `Pipe.bounds` reports (labels follow the *primitive* stage numbering of the model)."""
 
     # number of primitive stages each named operator expands to in the model
-    WIDTH = {'mean': 2, 'variance': 2, 'stddev': 3, 'fvariance': 2, 'fstddev': 3, 'batch': 3, 'duc': 3}
+    WIDTH = {'mean': 2, 'variance': 2, 'stddev': 3, 'fvariance': 2, 'fstddev': 3, 'duc': 3}
 
     def __init__(self, log=None, dead=None, mux=True):
         self.log = log
